@@ -149,8 +149,9 @@ theorem splitKeys_sorted {V : Type} (p : Key) : ∀ (K : List (Key × V)), Sorte
 /-! ### encodeMap on a sorted list builds a valid tree -/
 
 /-- hypothesis on the value codec for one value: `enc` produces `pay v`, the leaf cell has room for it together with
-the longest label of an `n`-bit dictionary (2 + bitlength n + n bits: hml_long of a whole key — the bound is attained,
-e.g. by a single key with mixed bits), and `dec` reads it back -/
+the longest label of an `n`-bit dictionary (2 + bitlength n + n bits: hml_long of a whole key). This is a SUFFICIENT
+condition — attained by a single key with mixed bits, not necessary for leaves below forks, whose labels are shorter;
+what happens outside it is covered by `encodeMap_ok_tree`: success is always faithful), and `dec` reads it back -/
 def Fits {V : Type} (C : Codec V) (pay : V → List Bool × List Cell) (n : Nat) (v : V) : Prop :=
   C.enc v = .ok (pay v) ∧ (pay v).1.length + n + 2 + minBitsRequired n ≤ 1023 ∧ (pay v).2.length ≤ 4 ∧
     DecodesValue C pay v
